@@ -137,7 +137,15 @@ def resolve_hrefs(element, xmlids, _path=()):
             continue # don't need to resolve this element
 
         elif e.get('href'):
-            key = e.get('href').replace('#', '')
+            # a multi-ref accessor is an empty element whose href is a local
+            # reference. anything else named href is an attribute of the
+            # user's own model.
+            if not e.get('href').startswith('#') or len(e) > 0 or \
+                                      (e.text is not None and e.text.strip()):
+                resolve_hrefs(e, xmlids, _path)
+                continue
+
+            key = e.get('href')[1:]
             resolved_element = xmlids.get(key)
             if resolved_element is None:
                 continue
